@@ -215,6 +215,7 @@ func runMain(args []string) {
 	seed := fs.Uint64("seed", envSeed(), "")
 	scale := fs.Float64("scale", 1, "multiply run counts")
 	noMin := fs.Bool("nomin", false, "skip minimisation")
+	buildDir := fs.String("builddir", "", "build output directory (default <verif>/build)")
 	fs.Parse(args)
 	if t := os.Getenv("VERIF_TIER"); t != "" && *tier == "" {
 		*tier = t
@@ -226,11 +227,15 @@ func runMain(args []string) {
 	}
 	fmt.Printf("simcheck: property=%s tier=%s VERIF_SEED=%d workers=%d\n", *prop, *tier, *seed, *workers)
 	start := time.Now()
-	bin, err := buildErgo(repoDir, verifDir, filepath.Join(verifDir, "build"))
+	if *buildDir == "" {
+		*buildDir = filepath.Join(verifDir, "build")
+	}
+	bin, err := buildErgo(repoDir, verifDir, *buildDir)
 	if err != nil {
 		fmt.Fprintln(os.Stderr, "build failed:", err)
 		os.Exit(2)
 	}
+	currentBin = bin
 	a := &agg{count: Counters{}, shapes: map[string]bool{}, states: map[string]bool{}, ilv: map[string]bool{}, digests: map[string]bool{}, nontriv: map[string]bool{},
 		foreign: map[string]int{}, viol: map[string]*found{}, perMode: map[string]int{}, extra: map[string]int{}}
 	type job struct {
@@ -377,6 +382,7 @@ func confirmReplay(path string) bool {
 	// high but not full probability per attempt
 	for attempt := 0; attempt < 3; attempt++ {
 		cmd := exec.Command(self, "replay", "--quiet", "--nobuild", path)
+		cmd.Env = append(os.Environ(), "SIM_BIN="+currentBin)
 		out, err := cmd.CombinedOutput()
 		if ee, ok := err.(*exec.ExitError); ok && ee.ExitCode() == 1 && strings.Contains(string(out), "REPRODUCED") {
 			return true
@@ -403,6 +409,9 @@ func replayMain(args []string) {
 		os.Exit(2)
 	}
 	bin := filepath.Join(verifDir, "build", "ergo")
+	if v := os.Getenv("SIM_BIN"); v != "" {
+		bin = v
+	}
 	if !*nobuild {
 		bin, err = buildErgo(repoDir, verifDir, filepath.Join(verifDir, "build"))
 		if err != nil {
@@ -460,6 +469,7 @@ func replayMain(args []string) {
 }
 
 var traceReplay bool
+var currentBin string
 
 // ---------------------------------------------------------------- minimise
 
